@@ -92,6 +92,12 @@ GENERIC_DEC = {'8': {'field_type': 'FIXED', 'field_length': 12, 'field_python_ty
                '3': {'field_type': 'FIXED', 'field_length': 6}}
 
 
+GENERIC_UNORDERED = {k: v for k, v in [
+    ('100', {'field_type': 'LLVAR', 'field_length': 0}), ('12', {'field_type': 'FIXED', 'field_length': 6}),
+    ('2', {'field_type': 'LLVAR', 'field_length': 0}), ('10', {'field_type': 'FIXED', 'field_length': 8, 'field_python_type': 'long'}),
+    ('4', {'field_type': 'FIXED', 'field_length': 12, 'field_python_type': 'long'})]}
+
+
 GENERIC = {
     'g-fixed': {'2': {'field_type': 'FIXED', 'field_length': 1}, '3': {'field_type': 'FIXED', 'field_length': 100},
                 '70': {'field_type': 'FIXED', 'field_length': 999}, '127': {'field_type': 'FIXED', 'field_length': 8}},
@@ -135,6 +141,8 @@ def obligations(tier):
     for enc in (('latin_1',) if q else CODECS):
         obs.append(Ob('pds-keys/%s' % enc, roundtrip(lambda: [2, 'PDS0105', 'PDS0146', 'PDS0158'], enc, False, maxvar=992), 600,
                       'DE2 plus three PDSxxxx entries, every combination of value lengths 0..992 (one to three carriers)', _funcs))
+    obs.append(Ob('generic/g-unordered-keys/cp500', roundtrip(lambda: [2, 4, 10, 12, 100], 'cp500', False, cfgs=GENERIC_UNORDERED), 300,
+                  'caller-supplied configuration whose dictionary keys are not in ascending numeric order (as after a JSON round trip with sorted string keys)', _funcs))
     import itertools as _it
     subsets = [[8], [28], [8, 28], [3, 8, 28]]
     obs.append(Ob('generic/g-decimal/latin_1', roundtrip(lambda: list(choose('subset', subsets)), 'latin_1', False, cfgs=GENERIC_DEC), 300,
